@@ -104,7 +104,7 @@ class PathState:
     def clone(self):
         s = PathState()
         s.env = dict(self.env)
-        s.facts = {k: {'isa': set(v['isa']), 'nota': set(v['nota']), 'eq': v['eq'], 'ne': set(v['ne'])}
+        s.facts = {k: {'isa': set(v['isa']), 'nota': set(v['nota']), 'eq': v['eq'], 'ne': set(v['ne']), 'truthy': v.get('truthy')}
                    for k, v in self.facts.items()}
         s.events = list(self.events)
         s.conds = list(self.conds)
@@ -204,8 +204,9 @@ class Walker:
             elts = tuple(('star', self.sym(e.value, st)) if isinstance(e, ast.Starred) else self.sym(e, st) for e in node.elts)
             return (kind, elts)
         if isinstance(node, ast.Dict):
+            # a dict literal is a fresh mutable object: its creation site is part of its identity
             return ('dict', tuple((self.sym(k, st) if k is not None else ('opaque', '**'), self.sym(v, st))
-                                  for k, v in zip(node.keys, node.values)))
+                                  for k, v in zip(node.keys, node.values)), ('at', getattr(node, 'lineno', 0), getattr(node, 'col_offset', 0)))
         if isinstance(node, ast.Subscript):
             base = self.sym(node.value, st)
             if isinstance(node.slice, ast.Slice):
@@ -252,6 +253,9 @@ class Walker:
         if is_const(test):
             return bool(test[1])
         k = test[0]
+        f0 = st.facts.get(test)
+        if f0 is not None and f0.get('truthy') is not None:
+            return f0['truthy']
         if k == 'un' and test[1] == 'not':
             d = self.decide(test[2], st)
             return None if d is None else not d
@@ -326,6 +330,10 @@ class Walker:
     def assume(self, test, pol, st):
         """Record what a test outcome teaches."""
         k = test[0]
+        if k in ('attr', 'name', 'res', 'sub', 'unpack', 'havoc', 'lv', 'mcall', 'call') and k not in ('call',) or (k == 'call' and test[1] != 'isinstance'):
+            # bare truthiness test of a value (pure values only: attribute / name / bound result)
+            if k in ('attr', 'name', 'res', 'sub', 'unpack'):
+                st.fact(test)['truthy'] = pol
         if k == 'un' and test[1] == 'not':
             return self.assume(test[2], not pol, st)
         if k == 'bool':
